@@ -17,7 +17,8 @@ RULE = ("case = FileSpec with ~V first, a permutation of {~W, ~C, optional ~P, o
         "order != V,W,C,P,O,A, or ~A not last, or a lower-case title, or a steering name in a non-steering "
         "section, or a custom section.")
 ASSUMPTIONS = [
-    "titles contain no '_' (LAS 3 section routing) and custom titles begin with a letter other than V/W/C/P/O/A",
+    "titles contain no '_' (LAS 3 section routing: `_Data`, `_Definition`, `_Parameter` suffixes) except the spellings "
+    "`_DATA` / `_data`, which are ordinary custom sections; custom titles begin with a letter other than V/W/C/P/O/A",
     "one section of each standard kind per file; ~Other receives plain text lines (no blank or comment lines)",
 ]
 
@@ -29,7 +30,7 @@ TITLES = {
     "O": ["~O", "~Other", "~OTHER INFORMATION", "~Other ----", "~o", "~other information", "~oTHER"],
     "A": ["~A", "~ASCII", "~ASCII LOG DATA", "~A  DEPT  GR  NPHI", "~Ascii -----", "~a", "~ascii log data", "~aSCII"],
     "X": ["~Tops", "~TOPS SECTION", "~Z", "~extra special information", "~Remarks", "~SPECIAL INFORMATION", "~tops",
-          "~remarks block", "~Formation Tops ---", "~q", "~Drilling"],
+          "~remarks block", "~Formation Tops ---", "~q", "~Drilling", "~TOPS_DATA", "~Mud_data"],
 }
 STEER = [("VERS", "{otherv}"), ("WRAP", "YES"), ("DLM", "COMMA"), ("NULL", "{cell}"), ("Vers", "{otherv}"),
          ("null", "{cell}"), ("wrap", "YES"), ("dlm", "COMMA")]
